@@ -430,6 +430,7 @@ var tiers = map[string]map[string]tierSpec{
 		"C08":     {480, 30, 150},
 		"C10":     {8000, 500, 120},
 		"C17":     {32000, 2000, 120},
+		"C11":     {7680, 480, 150},
 	},
 	"thorough": {
 		"default": {200000, 400, 1200},
@@ -438,6 +439,7 @@ var tiers = map[string]map[string]tierSpec{
 		"C08":     {24000, 60, 1500},
 		"C10":     {600000, 1000, 1200},
 		"C17":     {2000000, 4000, 1200},
+		"C11":     {384000, 640, 1500},
 	},
 }
 
